@@ -26,7 +26,7 @@ struct MutexEngine final : Engine {
     // both branching positions within the first 8 bytes: every subset of the pool keeps compressed paths <= 7 bytes
     const int lim = std::min(L, 8);
     const int p1 = static_cast<int>(r.below(static_cast<uint64_t>(lim - 1))), p2 = p1 + 1 + static_cast<int>(r.below(static_cast<uint64_t>(lim - 1 - p1)));
-    const int n1 = static_cast<int>(r.range(1, 3)), n2 = static_cast<int>(r.range(2, 6));
+    const int n1 = static_cast<int>(r.range(1, 3)), n2 = r.chance(0.15) ? static_cast<int>(r.range(16, 18)) : static_cast<int>(r.range(2, 6));
     for (int a = 0; a < n1; a++)
       for (int b = 0; b < n2; b++) {
         std::string k = base;
@@ -35,7 +35,7 @@ struct MutexEngine final : Engine {
         pool.push_back(k);
       }
     for (size_t i = pool.size(); i > 1; i--) std::swap(pool[i - 1], pool[r.below(i)]);
-    const size_t npre = r.below(pool.size() + 1);
+    const size_t npre = r.chance(0.4) ? pool.size() - r.below(2) : r.below(pool.size() + 1);  // often (nearly) full: nodes sit at a class boundary
     uint64_t vid = 0;
     for (size_t i = 0; i < npre; i++) {
       Op o; o.kind = M_INSERT; o.key = pool[i]; o.a = static_cast<int64_t>(++vid); o.b = r.range(8, 24);
@@ -66,6 +66,13 @@ struct MutexEngine final : Engine {
       }
       c.threads.push_back(std::move(ops));
     }
+    // allocation failures inside inserts (leaf, new inner node) and removes (the smaller node of a shrink)
+    Rng fr = stream(seed, S_FAULT);
+    if (fr.chance(0.4))
+      for (size_t t = 0; t < c.threads.size(); t++)
+        for (size_t i = 0; i < c.threads[t].size(); i++)
+          if ((c.threads[t][i].kind == M_INSERT || c.threads[t][i].kind == M_REMOVE) && fr.chance(0.3))
+            c.faults.push_back({static_cast<int>(t) + 1, static_cast<int>(i), 1, static_cast<int>(fr.range(1, 2)), 0});
     return c;
   }
 
